@@ -594,7 +594,8 @@ def check_C07(ctx):
     ctx.rule = ("TLC generates small ontologies (families: 9 name shapes incl. multi-byte characters straddling byte 255 x term/gene/disease names; structure x obsolete/replacement; "
                 "records incl. empty ones x release dates incl. extremes), checks the format's own round trip, and emits them.  Each v3 line is built as a real ontology through "
                 "Builder, hp.obo+annotation files and from_bytes; as_bytes -> from_bytes must give an observationally identical ontology (whole read API + Ontology::compare, names cut to 255 bytes "
-                "on a character boundary), the emitted records must equal the independently encoded ones, and the crate's bytes are decoded by the SPECIFICATION's decoder in TLC (trace validation); "
+                "on a character boundary), the emitted records must equal the independently encoded ones, and the crate's bytes are decoded by the SPECIFICATION's decoder in TLC (trace validation); recorded random runs (TraceCore focus C07) add a Reloaded event - the "
+                "round trip of every recorded ontology with the two roots must again be the builder state the specification derives; "
                 "non-trivial = a name longer than 10 characters or at least one gene")
     out = binary_lines(ctx)
     dump = os.path.join(ctx.scratch, "c07dump")
@@ -621,6 +622,8 @@ def check_C07(ctx):
         json.dump({"cmd": "trace-binary", "property": "C07", "src": rec["src"], "line": rec["line"],
                    "diffs": ["the specification's decoder does not accept / does not agree with the bytes written by Ontology::as_bytes (source %s)" % rec["src"]]}, open(rp, "w"))
         ctx.violations.append(dict(property="C07", what="spec Decode rejects as_bytes output (source %s)" % rec["src"], replay=rp))
+    # impl -> spec on recorded ontologies (10-20 and 45-70 terms): the reloaded ontology must again be the builder state TLC derives
+    trace_core(ctx, "C07", 24 if ctx.quick else 300, large_every=(0 if ctx.quick else 15))
     so = tlc(ctx, "mc/MC_SetMeta.cfg", "mc/MC_SetMeta.tla", workers=4)["out"]
     ss = hv(ctx, "replay-setmeta", **{"in": so})
     ctx.extra["extra_setmeta_queries"] = ss.get("evaluations", 0)
